@@ -40,7 +40,7 @@ func syncOptions(toks []string) (world.Options, []string) {
 		case strings.HasPrefix(t, "opt~db="):
 			opt.DefaultBackend = t[len("opt~db="):]
 		case t == "opt~xns=1":
-			opt.Dyn.CrossNamespaceSecretCertificate = true
+			opt.Dyn.StaticCrossNamespaceSecrets = true
 		case strings.HasPrefix(t, "opt~"):
 		default:
 			ops = append(ops, t)
